@@ -196,6 +196,7 @@ def tasks(tier, seed=0):
     out += [('short',), ('nested-short',), ('hostile-names',),
             ('shaped-nesting',)]
     out += [('scalar-limits', part) for part in range(4)]
+    out += [('flag-words',)]
     out += [('siblings', n) for n in ((64, 256, 1024, 2048)
                                       if tier == 'thorough'
                                       else (64, 256, 1024))]
@@ -283,6 +284,29 @@ def inputs(task, tier, seed=0):
             yield label + ' (method argument table)', wraps['table-body'](body)
             props = b'\x20\x00' + struct.pack('>I', len(body)) + body
             yield label + ' (headers property)', wraps['header-flags'](props)
+    elif kind == 'flag-words':
+        # content headers with k property-flag words chained by the
+        # continuation bit (a flat frame, no nesting), followed by L bytes of
+        # property data: k and L grow together
+        for k in (1, 2, 3, 8, 64, 300, 900, 990, 1100, 3000, 20000):
+            for size in (0, 100, 4096, 65536):
+                for first in (0x2001, 0x0001, 0xfffd):
+                    words = struct.pack('>H', first) + \
+                        b'\x00\x01' * (k - 1) + b'\x00\x00'
+                    if first == 0xfffd:
+                        continue_ = words[:-2] + b'\x00\x01'   # never ends
+                        data = faults.frame_wrap(
+                            2, 1, b'\x00\x3c\x00\x00' + bytes(8) + continue_)
+                        yield 'header with %d flag words, unterminated' % k, \
+                            data
+                        continue
+                    table = b'\x01kS' + struct.pack('>I', size) + b'v' * size
+                    props = struct.pack('>I', len(table)) + table \
+                        if first == 0x2001 else b''
+                    yield ('header with %d flag words and %d bytes of '
+                           'property data' % (k, len(props)),
+                           faults.frame_wrap(2, 1, b'\x00\x3c\x00\x00' +
+                                             bytes(8) + words + props))
     elif kind == 'scalar-limits':
         # every scalar tag whose Python type has limits of its own, with
         # payloads around those limits: well-formed frames all of them - a
